@@ -158,6 +158,8 @@ CTYPES = (
     ("application", "json", {"k": "v1"}),
     ("image", "png", {"a": "1", "b": "two words"}),
     ("text", "html", {"charset": "utf8", "x": "y"}),
+    ("video", "mp4", {"codecs": "avc1.42E01E, mp4a.40.2"}),
+    ("text", "csv", {"delimiter": ",", "header": "x;y=z"}),
 )
 
 
